@@ -212,12 +212,15 @@ PLANS["C11"] = {
     },
 }
 
-STD_PANIC = [r"assertion `left != right` failed|assertion failed: `\(left != right\)`|left != right"]
+STD_PANIC = [r"(placeholder message|left != right).*standardized_moment"]
 PLANS["C16"] = {
     "k": [
         K("c16::empty", timeout=600, note="every accessor of every estimator on new() and default(): documented sentinel, no panic"),
         K("c16::single", timeout=900, note="one observation x over the C01 domain: mean exactly x, spread statistics exactly 0, sample statistics NaN"),
-        K("c16::single_weighted", timeout=600, note="weighted estimators, one observation, weight 0 or in [1e-6,1e6]"),
+        K("c16::single_weighted_zero", timeout=600, note="weighted estimators, one observation of weight 0: NaN sentinels, unweighted part exact"),
+        K("c16::single_weighted_one", timeout=600, note="weighted estimators, one observation of weight 1"),
+        K("c16::single_weighted_quarter", timeout=600, note="weight 0.25"),
+        K("c16::single_weighted_three", timeout=600, note="weight 3"),
         K("c16::small_sentinels", timeout=900, note="sizes 2 and 3: sample_excess_kurtosis NaN, central_moment(0)=1, (1)=0"),
         K("c16::const_mean_variance", timeout=600, note="inductive step: n copies of x (n < 2^53, x in C01 domain) + add(x): mean exactly x, variance exactly 0"),
         K("c16::const_skewness", timeout=600, note="same for Skewness"),
@@ -325,3 +328,25 @@ _mplan("C05", "plan_c05", ["Quantile::{new, add, parabolic, linear, quantile, le
 _mplan("C17", "plan_c17", ["merge of Mean/Variance (hull), add of Variance/Moments4 (sign), WeightedMeanWithError (hull, effective_len)"],
        ["M: merged mean between the two means and merged sum of squares >= 0 for all summaries; weighted mean in [min,max] and effective_len in [1,n] for 2..3 (4) symbolic pairs"],
        [])
+
+PLANS["C18"] = {
+    "k": [K("c18::" + h, crate="avk-serde", timeout=900, note=n) for h, n in [
+        ("mean", "Mean: arbitrary state -> derived Serialize -> tape -> derived Deserialize: state bit-equal, original untouched, "
+                 "re-serialisation identical"),
+        ("variance", "Variance"), ("skewness", "Skewness"), ("kurtosis", "Kurtosis"), ("moments4", "crate's Moments4"),
+        ("moments5_user", "user-instantiated define_moments!(S5, 5)"), ("minmax", "Min and Max"),
+        ("weighted", "WeightedMean and WeightedMeanWithError"), ("covariance", "Covariance"),
+        ("quantile", "Quantile, arbitrary fields (both the <5 phase and the marker phase)"),
+        ("histogram3", "user-instantiated define_histogram!(.., 3) (BigArray path)"),
+    ]] + [K("c18::histogram10", crate="avk-serde", tier="thorough", timeout=3600, note="exported Histogram10 (BigArray path)")],
+    "meta": {
+        "functions_encoded": ["serde_derive-generated Serialize/Deserialize impls of every estimator struct (incl. field-name visitors)",
+                              "serde_big_array::BigArray for histogram arrays", "tape::{Ser, De} (the lossless in-memory format of the harness crate)"],
+        "bounds": ["one round trip from an arbitrary state with finite fields (every checkpoint = every state); tape capacity 48 tokens"],
+        "outside_bounds": ["serde_json's text encoding (unbounded digit loops): replaced by a lossless format, as the property allows",
+                           "non-finite field values",
+                           "bit-equal continuation beyond one add is implied: add/merge are functions of the state, which is shown bit-equal"],
+        "stubs_and_assumes": ["data format = /verif/kani/avk-serde/src/tape.rs (raw bits + field names on a fixed-size tape)"],
+        "assumptions": COMMON_ASSUME,
+    },
+}
